@@ -113,7 +113,7 @@ def build(want_engines=None, quiet=True):
             if d != hid and os.path.isdir(p):
                 shutil.rmtree(p, ignore_errors=True)
         log = []
-        incs = ["-I" + os.path.join(REPO, "src"), "-I" + HARNESS]
+        incs = ["-I" + os.path.join(REPO, "src"), "-I" + HARNESS, "-I" + os.path.join(REPO, "src", "lib_common")]
         if not os.path.exists(os.path.join(REPO, "src", "lib_common", "of_build_config.h")):
             gen = os.path.join(bdir, "gen")
             os.makedirs(gen, exist_ok=True)
@@ -157,6 +157,10 @@ def build(want_engines=None, quiet=True):
                     sys.stderr.write("BUILD FAILED (probe stub):\n" + "\n".join(log)[-6000:] + "\n")
                     return None
                 unavailable.append(v + ":" + g)
+        # probe objects may contain private copies of library translation units: keep only shp_* global
+        for key, ok in status.items():
+            if key[0] == "glue" and key[3]:
+                run(["objcopy", "-w", "-G", "shp_*", key[4]], log)
         with open(os.path.join(bdir, "unavailable_probes.txt"), "w") as fh:
             fh.write("\n".join(sorted(unavailable)))
         # link engines
